@@ -44,7 +44,6 @@ TRUSTED_EXTRA = ["pytz zone tables / datetime arithmetic used to build the docum
 
 F = fractions.Fraction
 EPOCH = None
-KNOWN_SIG = "stoch-ff-discrete-stay"
 
 ZONES = ["UTC", "America/Los_Angeles", "Europe/Berlin", "Asia/Kolkata", "Australia/Lord_Howe",
          "America/St_Johns", "Pacific/Kiritimati"]
@@ -149,13 +148,22 @@ def fit_margin(E, n, V, T):
 # ---------------------------------------------------------------------------------------------
 # running the implementation
 # ---------------------------------------------------------------------------------------------
+def is_fit(bp):
+    return bp in ("fit", "fitkw")
+
+
 def bp_value(bp):
     from acnportal.acnsim.models.battery import Battery, Linear2StageBattery, batt_cap_fn
     if bp == "none":
         return None
     if bp == "battery":
         return {"type": Battery}
+    if bp == "fitkw":      # the 'kwargs' key: passed on to the battery constructor
+        return {"type": Linear2StageBattery, "capacity_fn": batt_cap_fn, "kwargs": dict(FIT_KWARGS)}
     return {"type": Linear2StageBattery, "capacity_fn": batt_cap_fn}
+
+
+FIT_KWARGS = {"noise_level": 0.125, "transition_soc": 0.75}
 
 
 def ev_obs(ev, V=None, T=None):
@@ -181,7 +189,8 @@ def _ev_obs(ev):
                 cap=float(b._capacity), init=float(b._init_charge),
                 int_types=bool(isinstance(ev.arrival, int) and isinstance(ev.departure, int)),
                 est_dep=int(ev.estimated_departure), max_power=float(b._max_power),
-                session=str(ev.session_id), station=str(ev.station_id), btype=type(b).__name__)
+                session=str(ev.session_id), station=str(ev.station_id), btype=type(b).__name__,
+                bkw=[getattr(b, "_noise_level", None), getattr(b, "_transition_soc", None)])
 
 
 def run_acn(inp):
@@ -207,11 +216,21 @@ def run_acn(inp):
         with warnings.catch_warnings():
             warnings.simplefilter("ignore")
             try:
-                evs = ae.get_evs("token", "site", start, start + datetime.timedelta(days=30), inp["T"], inp["V"],
-                                 inp["maxP"], max_len=inp["max_len"], battery_params=bp_value(inp["bp"]),
-                                 force_feasible=inp["ff"])
+                fn = ae.generate_events if inp.get("via") == "queue" else ae.get_evs
+                evs = fn("token", "site", start, start + datetime.timedelta(days=30), inp["T"], inp["V"],
+                         inp["maxP"], max_len=inp["max_len"], battery_params=bp_value(inp["bp"]),
+                         force_feasible=inp["ff"])
             except Exception as e:  # noqa
                 return dict(error=err_tag(e))
+        if inp.get("via") == "queue":       # acndata_events.generate_events: an EventQueue of PluginEvents
+            items = sorted(((int(it[1].ev.session_id[4:]), it) for it in evs.queue), key=lambda p: p[0])
+            out = []
+            for _, it in items:
+                o = ev_obs(it[1].ev, inp["V"], inp["T"])
+                o["event_ts"] = int(it[0])
+                o["event_type"] = it[1].event_type
+                out.append(o)
+            return dict(evs=out)
         return dict(evs=[ev_obs(e, inp["V"], inp["T"]) for e in evs])
     finally:
         ae.DataClient = orig
@@ -302,7 +321,7 @@ def zlit_(n):
 
 
 def bp_coq(bp):
-    return "BP_fit" if bp == "fit" else "BP_default"
+    return "BP_fit" if bp in ("fit", "fitkw") else "BP_default"
 
 
 def res_coq(impl, item):
@@ -373,12 +392,13 @@ def gen_acn_input(rng):
         else rand_instant(rng, anchor - 86400, anchor)
     V = rng.choice(VOLTS)
     maxP = rng.choice(MAXP)
-    bp = rng.choice(["none", "battery", "fit", "fit"])
+    bp = rng.choice(["none", "battery", "fit", "fit", "fitkw"])
     ff = rng.random() < 0.5
     max_len = rng.choice([None, None, None, 0, 1, 3, 12, 48, 100])
+    via = rng.choice(["evs", "evs", "queue"])
     docs = []
     t0 = start[0]
-    for _ in range(rng.choice([1, 1, 2] if bp == "fit" else [1, 1, 2, 3, 4])):
+    for _ in range(rng.choice([1, 1, 2] if bp in ("fit", "fitkw") else [1, 1, 2, 3, 4])):
         if rng.random() < 0.6:
             conn = near_boundary(rng, t0 + rng.randint(0, 6 * 3600), T)
         else:
@@ -395,7 +415,7 @@ def gen_acn_input(rng):
         if max_len is not None:
             stay_guess = min(stay_guess, max_len)
         kind = rng.random()
-        if bp == "fit" and rng.random() < 0.8:
+        if bp in ("fit", "fitkw") and rng.random() < 0.8:
             kind = rng.uniform(0.5, 0.85)            # mostly requests the fit can serve
         capP = maxP * stay_guess * T / 60
         cap32 = deliverable_32(V, stay_guess, T)
@@ -415,7 +435,8 @@ def gen_acn_input(rng):
             kwh = -1.5                # malformed document
         docs.append(dict(conn=conn, disc=disc, kwh=float(kwh), zone=rng.choice([zone, zone, rng.choice(ZONES)])))
         t0 = conn[0]
-    return dict(stream="acn", start=start, zone=zone, T=T, V=V, maxP=maxP, max_len=max_len, ff=ff, bp=bp, docs=docs)
+    return dict(stream="acn", start=start, zone=zone, T=T, V=V, maxP=maxP, max_len=max_len, ff=ff, bp=bp, docs=docs,
+                via=via)
 
 
 def acn_ambiguous(inp, impl):
@@ -425,11 +446,11 @@ def acn_ambiguous(inp, impl):
         tsv = ts_exact(*s)
         if floor_ambiguous(tsv / (60 * T), ts_margin(tsv, T)):
             return True
-    if inp["bp"] == "fit" and "evs" in impl:
+    if is_fit(inp["bp"]) and "evs" in impl:
         for o in impl["evs"]:
             if fit_margin(o["requested"], o["departure"] - o["arrival"], inp["V"], T):
                 return True
-    if inp["bp"] == "fit" and "error" in impl:
+    if is_fit(inp["bp"]) and "error" in impl:
         # find the failing document: every prefix document may be the culprit; be conservative
         off = math.floor(ts_exact(*inp["start"]) / (60 * T))
         for d in inp["docs"]:
@@ -530,22 +551,11 @@ def stoch_ambiguous(inp, impl):
                     continue
                 if inp["max_len"] is not None and d > F(inp["max_len"]):
                     d = F(inp["max_len"])
-                if inp["ff"]:
-                    e = min(e, F(inp["maxP"]) * d)
                 stay = math.floor((a + d) * pph) - math.floor(a * pph)
+                if inp["ff"]:
+                    e = min(e, F(inp["maxP"]) * stay / pph)
                 if fit_margin(float(e), stay, inp["V"], T):
                     return True
-    return False
-
-
-def stoch_known(inp, impl):
-    """the open finding: force_feasible caps by the sampled duration, the discretised stay can be shorter"""
-    if not inp["ff"] or "evs" not in impl:
-        return False
-    for o in impl["evs"]:
-        stay = o["departure"] - o["arrival"]
-        if F(o["requested"]) > F(inp["maxP"]) * stay * F(inp["T"]) / 60 * (1 + F(1, 10 ** 9)):
-            return True
     return False
 
 
@@ -554,9 +564,7 @@ def make_stoch_case(inp):
     amb = stoch_ambiguous(inp, impl)
     kind = "stoch/%s/%s/%s%s%s" % (inp["cls"], inp["bp"], "ff" if inp["ff"] else "noff",
                                    "/maxlen" if inp["max_len"] is not None else "", "/error" if "error" in impl else "")
-    r = None if amb else monitor_stoch(inp, impl)
-    sig = KNOWN_SIG if (r and r.startswith("force_feasible:")) else inp     # the open finding, and nothing else wrong
-    return dict(input=inp, impl=impl, coq=stoch_coq(inp, impl), ambiguous=amb, kind=kind, sig=sig, nontrivial=True)
+    return dict(input=inp, impl=impl, coq=stoch_coq(inp, impl), ambiguous=amb, kind=kind, sig=inp, nontrivial=True)
 
 
 def gen_fit_input(rng):
@@ -598,28 +606,40 @@ def make_fit_case(inp):
     return dict(input=inp, impl=impl, coq=fit_coq(inp, impl), ambiguous=amb, kind=kind, sig=inp, nontrivial=True)
 
 
-CORPUS_FIT = [dict(stream="fit", E=1.0, n=64, V=208, T=5),        # fixed finding a1de905 (closed form)
-              dict(stream="fit", E=-1.5, n=0, V=240, T=1),        # malformed: no root, RecursionError
+CORPUS_FIT = [dict(stream="fit", E=-1.5, n=0, V=240, T=1),        # malformed: no root, RecursionError
               dict(stream="fit", E=-1.5, n=12, V=240, T=5),
               dict(stream="fit", E=10.0, n=24, V=208, T=5),
               dict(stream="fit", E=1.0, n=0, V=208, T=5),
               dict(stream="fit", E=0.0, n=0, V=208, T=5)]
-CORPUS_ACN = [dict(stream="acn", start=[1541244666, 0], zone="UTC", T=1, V=240, maxP=7.68, max_len=0, ff=False, bp="fit",
-                   docs=[dict(conn=[1541258524, 24521], disc=[1541266828, 24521], kwh=-1.5, zone="UTC")])]
-CORPUS_STOCH = [dict(stream="stoch", cls="sub", clip=[0.0, 24.0, 0.0833, 48.0, 0.5, 150.0], T=5, V=208, maxP=7,
-                     max_len=None, ff=False, bp="fit", days=[[[6.5, 2.0, 10.0]]]),   # fixed finding 2aef4e9
-                dict(stream="stoch", cls="gmm", clip=[0.0, 24.0, 0.0833, 48.0, 0.5, 150.0], T=5, V=208, maxP=7,
+CORPUS_STOCH = [dict(stream="stoch", cls="gmm", clip=[0.0, 24.0, 0.0833, 48.0, 0.5, 150.0], T=5, V=208, maxP=7,
                      max_len=1, ff=True, bp="none", days=[[[6.5, 8, 10], [8.3, 6.05, 3], [10, 3, 15]]])]
 
 
+def corpus(stream):
+    """corpus/C15/*.json (minimised past findings / disagreements) — always run first"""
+    import glob
+    import json
+    import os
+    root = os.path.join(os.path.dirname(os.path.dirname(os.path.abspath(__file__))), "corpus", PID)
+    out = []
+    for f in sorted(glob.glob(os.path.join(root, "*.json"))):
+        with open(f) as fh:
+            inp = json.load(fh)
+        inp.pop("note", None)
+        if inp.get("stream") == stream:
+            out.append(inp)
+    return out
+
+
 def gen_cases(rng, n, tier):
-    return [make_acn_case(i) for i in CORPUS_ACN] + [make_acn_case(gen_acn_input(rng)) for _ in range(n)]
+    return [make_acn_case(i) for i in corpus("acn")] + [make_acn_case(gen_acn_input(rng)) for _ in range(n)]
 
 
 def extra_streams(rng, tier):
     n = CASES[tier]
-    stoch = [make_stoch_case(i) for i in CORPUS_STOCH] + [make_stoch_case(gen_stoch_input(rng)) for _ in range(n // 2)]
-    fit = [make_fit_case(i) for i in CORPUS_FIT] + [make_fit_case(gen_fit_input(rng)) for _ in range(n // 2)]
+    stoch = [make_stoch_case(i) for i in corpus("stoch") + CORPUS_STOCH] + \
+        [make_stoch_case(gen_stoch_input(rng)) for _ in range(n // 2)]
+    fit = [make_fit_case(i) for i in corpus("fit") + CORPUS_FIT] + [make_fit_case(gen_fit_input(rng)) for _ in range(n // 2)]
     hdr = CORR_HEADER
     return [("stoch", hdr, "check_c15_stoch", stoch), ("fit", hdr, "check_c15_fit", fit)]
 
@@ -637,7 +657,7 @@ def close(a, b, scale=1):
 
 def check_battery(bp, o, V, T):
     req, cap, init = F(o["requested"]), F(o["cap"]), F(o["init"])
-    if bp != "fit":
+    if not is_fit(bp):
         if not (close(cap - init, req) and init == 0):
             return "default battery: capacity - initial charge = %r, requested %r" % (float(cap - init), float(req))
         if o["btype"] != "Battery":
@@ -647,6 +667,9 @@ def check_battery(bp, o, V, T):
             return "fitted battery cannot hold the request: cap %r init %r requested %r" % (o["cap"], o["init"], o["requested"])
         if o["cap"] not in LADDER:
             return "capacity %r is not a ladder step" % o["cap"]
+        want_kw = [FIT_KWARGS["noise_level"], FIT_KWARGS["transition_soc"]] if bp == "fitkw" else [0, 0.8]
+        if o["btype"] != "Linear2StageBattery" or o["bkw"] != want_kw:
+            return "battery %s%r does not carry the requested type / kwargs" % (o["btype"], o["bkw"])
         if "fit_error" in o:
             return "the fitted battery cannot be built / charged: %s" % o["fit_error"]
         if "fit_delivered" in o and abs(F(o["fit_delivered"]) - req) > 2 * REL * cap + F(1, 10 ** 12):
@@ -679,7 +702,7 @@ def rejection_ok(bp, sessions, V, T, recursion=False):
     for e, stay in sessions:
         if e < 0:
             return True
-        if bp == "fit" and not fit_feasible(e, stay, V, T) and not recursion:
+        if is_fit(bp) and not fit_feasible(e, stay, V, T) and not recursion:
             return True
     return False
 
@@ -688,7 +711,7 @@ def monitor_acn(inp, impl):
     T = inp["T"]
     off = math.floor(ts_exact(*inp["start"]) / (60 * T))
     if "error" in impl:
-        rec = impl["error"] == "RecursionError" and inp["bp"] == "fit"
+        rec = impl["error"] == "RecursionError" and is_fit(inp["bp"])
         if not impl["error"].startswith("ValueError") and not rec:
             return "get_evs raised %s" % impl["error"]
         sess = []
@@ -723,6 +746,8 @@ def monitor_acn(inp, impl):
             return "departure before arrival"
         if o["est_dep"] != o["departure"]:
             return "estimated departure differs from departure"
+        if "event_ts" in o and (o["event_ts"] != o["arrival"] or o["event_type"] != "Plugin"):
+            return "generate_events: event (%r, %s) for an EV arriving at %d" % (o["event_ts"], o["event_type"], o["arrival"])
         stay = o["departure"] - o["arrival"]
         want = F(d["kwh"])
         if inp["ff"]:
@@ -746,7 +771,7 @@ def monitor_stoch(inp, impl):
     T = inp["T"]
     pph = F(60, T)
     if "error" in impl:
-        rec = impl["error"] == "RecursionError" and inp["bp"] == "fit"
+        rec = impl["error"] == "RecursionError" and is_fit(inp["bp"])
         if not impl["error"].startswith("ValueError") and not rec:
             return "generate_events raised %s" % impl["error"]
         if all(len(d) == 0 for d in inp["days"]):
@@ -757,9 +782,10 @@ def monitor_stoch(inp, impl):
                 continue
             if inp["max_len"] is not None and d > F(inp["max_len"]):
                 d = F(inp["max_len"])
+            stay = math.floor((a + d) * pph) - math.floor(a * pph)
             if inp["ff"]:
-                e = min(e, F(inp["maxP"]) * d)
-            sess.append((e, math.floor((a + d) * pph) - math.floor(a * pph)))
+                e = min(e, F(inp["maxP"]) * stay / pph)
+            sess.append((e, stay))
         if not rejection_ok(inp["bp"], sess, inp["V"], T, recursion=rec):
             return "generate_events raised %s although every row is acceptable" % impl["error"]
         return None
@@ -770,7 +796,7 @@ def monitor_stoch(inp, impl):
         if inp["max_len"] is not None and d > F(inp["max_len"]):
             d = F(inp["max_len"])
         if inp["ff"]:
-            e = min(e, F(inp["maxP"]) * d)
+            e = min(e, F(inp["maxP"]) * (math.floor((a + d) * pph) - math.floor(a * pph)) / pph)
         want.append((idx, math.floor(a * pph), math.floor((a + d) * pph), e, d))
     if [w[0] for w in want] != [o["row"] for o in impl["evs"]]:
         return "rows converted %r, valid rows %r" % ([o["row"] for o in impl["evs"]], [w[0] for w in want])
@@ -857,8 +883,6 @@ def search(rng, budget_s, broken):
         for g in gens:
             for _ in range(60):
                 c = make_case(g(rng))
-                if c["sig"] == KNOWN_SIG:
-                    continue
                 r = monitor(c)
                 if r:
                     return dict(case=c["input"], impl=c["impl"], why=r)
@@ -867,16 +891,5 @@ def search(rng, budget_s, broken):
 
 def replay(w):
     c = make_case(w["case"])
-    c["ambiguous"] = False
-    return monitor(c)
-
-
-KNOWN_WITNESS = dict(stream="stoch", cls="sub", clip=[0.0, 24.0, 0.0833, 48.0, 0.5, 150.0], T=60, V=208, maxP=7,
-                     max_len=None, ff=True, bp="none", days=[[[0.0, 0.9, 10.0]]])
-
-
-def replay_known(entry):
-    w = entry.get("witness") or KNOWN_WITNESS
-    c = make_case(w)
     c["ambiguous"] = False
     return monitor(c)
